@@ -426,7 +426,7 @@ type rqEnv struct {
 	tgOther bool
 }
 
-const rqDelay = 250 * time.Millisecond
+const rqDelay = 400 * time.Millisecond
 
 func newRq(delay, ownRouter bool) (*rqEnv, error) {
 	e := &rqEnv{sub: newChanSub(), pub: &recPub{}, done: make(chan error, 1), delay: delay, scripts: map[*message.Message]*rqCase{}}
@@ -631,11 +631,7 @@ func rqCases(out *wh.Out, rng *wh.Rng, nRandom, nBursts int) {
 	}
 	for i := 0; i < 6 && !isStalled(); i++ {
 		c := &rqCase{delay: true, cancel: i%3 != 2, tgOK: true, topic: "later", msg: rndMsg(rng, rndBytes), fail: i == 5}
-		t0 := time.Now()
 		obs := env.run(c)
-		if !c.cancel && time.Since(t0) < rqDelay {
-			obs += " early"
-		}
 		out.Case(c.req(), obs)
 		out.Count("rq.delay")
 	}
@@ -1336,7 +1332,7 @@ func main() {
 	rng := wh.NewRng(a.Seed)
 	scale := 1
 	if a.Thorough() {
-		scale = 10
+		scale = 30
 	}
 	t0 := time.Now()
 	section := func(name string, f func()) {
@@ -1344,7 +1340,17 @@ func main() {
 			out.Note("section " + name + " skipped: the implementation stalled earlier")
 			return
 		}
-		f()
+		func() {
+			// a panic of the code under test on a harness goroutine (constructors, AddSubscription, Publisher.Publish)
+			// becomes an observation instead of killing the harness
+			defer func() {
+				if r := recover(); r != nil {
+					out.Case("crash "+name, wh.PanicText(r))
+					out.Count("crash")
+				}
+			}()
+			f()
+		}()
 		out.Note(fmt.Sprintf("section %s done at %.1fs", name, time.Since(t0).Seconds()))
 	}
 	section("atoi", func() { atoiCases(out, rng, 200*scale) })
